@@ -285,52 +285,63 @@ def skipped_modules_not_resolved(ctx, rid):
 def parse_errors_are_errors(ctx, rid):
     """R13-f / R05-h: a module file that fails to parse is an error of the whole root, never swallowed"""
     p, r = ctx.p, ctx.r
-    r.rule(rid, "ModResolver::find_external_module: on every path on which Parser::parse_file_as_module answered "
-                "Err(ParserError::ParseError) the function returns Err (a ModuleResolutionError), whatever alternative "
-                "candidates (#[cfg_attr(path)]) exist: a syntax error in a reached file must fail the root before anything is written")
-    f = p.named("find_external_module", within="modules::ModResolver")
-    if f is None:
-        r.undecidable(rid, "find_external_module not found")
-        return
+    r.rule(rid, "ModResolver::find_external_module and ::find_mods_outside_of_ast: on every path on which "
+                "Parser::parse_file_as_module answered Err and ParserError::ParseError has not been excluded, the function returns "
+                "Err (a ModuleResolutionError) — it neither returns Ok nor goes round its loop to the next candidate: a syntax "
+                "error in a reached file (default location, #[path], #[cfg_attr(path)]) must fail the root before anything is written")
     PURE = ("parse_file_as_module", "is_file_parsed", "submod_path_from_attr", "default_submod_path", "contains_skip", "::is_empty",
-            "find_mods_outside_of_ast")
-    try:
-        paths = explore(f, pure=lambda c: any(x in c.name for x in PURE), max_paths=200000, program=p, inline="auto")
-    except TooManyPaths as e:
-        r.undecidable(rid, str(e))
-        return
-    r.paths(rid, len(paths))
-    n = 0
-    for path in paths:
-        if path.end != "ret" or path.ret is None:
+            "find_mods_outside_of_ast", "::exists", "::paths", "::clone", "::push")
+    total = 0
+    for name in ("find_external_module", "find_mods_outside_of_ast"):
+        f = p.named(name, within="modules::ModResolver")
+        if f is None:
+            r.undecidable(rid, "%s not found" % name)
             continue
-        failed = False
-        excluded = False      # the path has established that the error is *not* ParseError
-        for k, v in path.decisions:
-            if "parse_file_as_module(" not in k:
+        try:
+            paths = explore(f, pure=lambda c: any(x in c.name for x in PURE), max_paths=200000, program=p, inline="auto")
+        except TooManyPaths as e:
+            r.undecidable(rid, str(e))
+            continue
+        r.paths(rid, len(paths))
+        n = 0
+        for path in paths:
+            failed = False
+            excluded = False      # the path has established that the error is *not* ParseError
+            for k, v in path.decisions:
+                if "parse_file_as_module(" not in k:
+                    continue
+                if k.endswith("as Err.0)"):
+                    vn = variant_name(v)
+                    if isinstance(vn, tuple) and vn and vn[0] == "other":
+                        excluded = "ParseError" not in vn[1]
+                    else:
+                        excluded = vn != "ParseError"
+                elif variant_name(v) == "Err":
+                    failed, excluded = True, False
+            if not failed:
                 continue
-            if k.endswith("as Err.0)"):
-                vn = variant_name(v)
-                if isinstance(vn, tuple) and vn and vn[0] == "other":
-                    excluded = "ParseError" not in vn[1]
-                else:
-                    excluded = vn != "ParseError"
-            elif variant_name(v) == "Err":
-                failed, excluded = True, False
-        if not failed:
-            continue
-        n += 1
-        ret = vkey(path.ret)
-        ok = ret.startswith("Err(") or ret.startswith("residual(") or excluded
-        r.instance(rid, "find_external_module[parse failed, ParseError %s] → %s" % ("excluded" if excluded else "possible", ret.split("(")[0]),
-                   "ok" if ok else "violation", "%s:%d" % (f.file, f.line))
-        if not ok:
-            r.violation(rid, "find_external_module swallows a parse error (returns %s)" % ret.split("(")[0],
-                        "Parser::parse_file_as_module answered Err and the path returns %s without having excluded "
-                        "ParserError::ParseError: a module file with a syntax error lets the run go on, exit 0 and rewrite the "
-                        "other files of the crate (decisions: %s)" % (short(ret)[:60], [(k[-30:], variant_name(v)) for k, v in path.decisions][-4:]),
-                        ["%s:%d" % (f.file, f.line)])
-    r.floor(rid, n, 2, "parse-error paths of find_external_module")
+            if path.end not in ("ret", "loop"):
+                continue
+            n += 1
+            if path.end == "ret" and path.ret is not None:
+                ret = vkey(path.ret)
+                ok = ret.startswith("Err(") or ret.startswith("residual(") or excluded
+                outcome = ret.split("(")[0]
+            else:
+                ok = excluded
+                outcome = "next iteration"
+            r.instance(rid, "%s[parse failed, ParseError %s] → %s" % (name, "excluded" if excluded else "possible", outcome),
+                       "ok" if ok else "violation", "%s:%d" % (f.file, f.line))
+            if not ok:
+                r.violation(rid, "%s swallows a parse error (%s)" % (name, "returns %s" % outcome if path.end == "ret" else "goes on to the next candidate"),
+                            "Parser::parse_file_as_module answered Err and the path %s without having excluded "
+                            "ParserError::ParseError: a module file with a syntax error lets the run go on, exit 0 and rewrite the "
+                            "other files of the crate (decisions: %s)" % (
+                                "returns %s" % outcome if path.end == "ret" else "continues with the next path",
+                                [(k[-30:], variant_name(v)) for k, v in path.decisions][-4:]),
+                            ["%s:%d" % (f.file, f.line)])
+        total += n
+    r.floor(rid, total, 3, "parse-failure paths of the external-module finders")
 
 
 def modules_come_from_the_parser(ctx, rid):
